@@ -122,6 +122,7 @@ def c20(tier):
                                  "(paths of up to 33 segments, beyond any inline buffer)")
     for model, cfg in cfgs("mc/MC_SegIter", tier, [""]):
         mc_replay(c, model, cfg, "double-ended segment iteration allocates nothing")
+    big_and_validate(c, {"big_path", "big_ref"})
     return c.finish(rule="every enumerated valid text: allocation delta of parse+accessors must be 0 and every "
                          "returned slice must sit at the byte range computed by spec/Ranges.tla",
                     assumptions=TRUST + ["counting #[global_allocator] in the harness (thread-local counter)"])
@@ -129,9 +130,10 @@ def c20(tier):
 
 def c09(tier):
     c = new_check("C09", tier)
-    for model, cfg in cfgs("mc/MC_Paths", tier, ["", "pct"]):
+    for model, cfg in cfgs("mc/MC_Paths", tier, ["", "pct", "long"]):
         mc_replay(c, model, cfg, "every path within the bound: normalized segments, admissible texts of the normalized "
                                  "copy and of in-place normalisation, stand-alone and inside references")
+    big_and_validate(c, {"big_path"})
     return c.finish(rule="all paths (absolute and relative) of bounded segment count over {'', a, ., .., b:c, %2e, e-acute}",
                     assumptions=TRUST + ["RFC 3986 5.2.4 transcription (Rfc524) and the Errata-4547 stack walk (NormSegs) in "
                                          "spec/PathOps.tla; TLC proves they agree on every enumerated absolute path"])
@@ -203,9 +205,14 @@ def charge_edit(ev, why):
 
 def drive_and_validate(c, tier, ops=None):
     """Direction B: random edit histories on the real buffers, each call judged by TLC."""
-    hist, steps = (1500, 30) if tier == "quick" else (40000, 40)
+    hist, steps = (1000, 30) if tier == "quick" else (40000, 40)
     ev = vlib.run_drive("%s-%s" % (c.pid, tier), hist, steps)
     sel = (lambda e: e.get("op") in ops) if ops else None
+    crash = vlib.LAST_DRIVE_CRASH.get(ev)
+    if crash is not None and (sel is None or sel(crash)):
+        props = charge_edit(crash, "panic")
+        if c.pid in props:
+            c.judge(crash, [{"props": props, "what": "process_abort", "panic": crash.get("msg", "")}])
     n, bad, tr = vlib.run_trace(ev, name="%s-edit-%s" % (c.pid, tier), select=sel)
     c.add_trace(n, bad, tr, "random edit histories (long texts, multi-byte, 30-40 calls each) recorded from the real "
                             "buffers; every call judged by TLC from the implementation's own previous text", charge=charge_edit)
@@ -227,8 +234,13 @@ def charge_session(ev, why):
 
 def sessions_and_validate(c, tier, which):
     """Direction B for handles: sessions through one handle, validated by the stateful trace spec."""
-    n = 400 if tier == "quick" else 12000
+    n = 300 if tier == "quick" else 12000
     ev = vlib.run_drive_sessions("%s-%s" % (c.pid, tier), n)
+    crash = vlib.LAST_DRIVE_CRASH.get(ev)
+    if crash is not None and (which is None or crash.get("ev", "").endswith(which)):
+        props = charge_session(crash, "panic")
+        if c.pid in props:
+            c.judge(crash, [{"props": props, "what": "process_abort", "panic": crash.get("msg", "")}])
     k, bad, results = vlib.run_trace_sessions(ev, "%s-sessions-%s" % (c.pid, tier))
     for r in results[:1]:
         c.add_tlc(r, "stateful trace specification of handle sessions (one of the parallel parts)")
@@ -242,6 +254,16 @@ def sessions_and_validate(c, tier, which):
     c.exhaustive = False
 
 
+def big_and_validate(c, which):
+    """Inputs of 100 kB - 1 MB (beyond every inline buffer and 16-bit offset), judged structurally by TLC."""
+    ev = vlib.run_drive_big("%s-big" % c.pid)
+    crash = vlib.LAST_DRIVE_CRASH.get(ev)
+    if crash is not None and crash.get("ev") in which:
+        c.judge(crash, [{"props": [c.pid], "what": "process_abort", "panic": crash.get("msg", "")}])
+    n, bad, tr = vlib.run_trace(ev, name="%s-big" % c.pid, select=lambda e: e.get("ev") in which, workers=2)
+    c.add_trace(n, bad, tr, "very large inputs: fixed point of normalisation, segment counts, allocation-free access, ranges tile the input")
+
+
 def c04(tier):
     c = new_check("C04", tier)
     c.group_key = beh_key
@@ -251,8 +273,8 @@ def c04(tier):
         mc_replay(c, model, cfg, "call sequences through one path handle")
     for model, cfg in cfgs("mc/MC_AuthMut", tier, [""]):
         mc_replay(c, model, cfg, "call sequences through one authority handle")
-    for model, cfg in cfgs("mc/MC_Paths", tier, [""]):
-        mc_replay(c, model, cfg, "in-place normalisation stand-alone and inside references")
+    for model, cfg in cfgs("mc/MC_Paths", tier, ["", "long"]):
+        mc_replay(c, model, cfg, "in-place normalisation stand-alone and inside references (incl. paths beyond 512 bytes)")
     drive_and_validate(c, tier)
     sessions_and_validate(c, tier, None)
     return c.finish(rule="editor state graph: nodes = texts reachable within the length bound from 5 initial buffers, "
